@@ -1,6 +1,6 @@
 (** Proofs for Model/RegistryTable.v: the registry layer (C01), the command generator (C14)
-    and the table builder (C05) composed.  Headline: for a registry state with injective
-    instance keys whose healthy tagged entries are expressible, the pushed config is accepted
+    and the table builder (C05) composed.  Headline: for a registry state
+    whose healthy tagged entries are expressible, the pushed config is accepted
     by NewTable and the table has a target for (instance, prefix) iff the instance is healthy
     and advertises the prefix; the same for the ACTIVE table of the watch loop. *)
 From Coq Require Import String List NArith ZArith Bool Lia.
@@ -120,11 +120,11 @@ Section Compose.
   Lemma service_entries_struct keys rs :
     service_entries prefix keys (map centry_of rs) =
     Ok (flat_map (fun r => RouteCmd.build isp env prefix (r_reg r))
-                 (filter (fun r => existsb (beq (inst_key (r_node r) (g_id (r_reg r)))) keys) rs)).
+                 (filter (fun r => existsb (key_eqb (inst_key (r_node r) (g_id (r_reg r)))) keys) rs)).
   Proof.
     induction rs as [|r rs IH]; cbn [map service_entries filter flat_map]; [reflexivity|].
     rewrite IH. cbn [bind]. change (e_node (centry_of r)) with (r_node r). change (e_sid (centry_of r)) with (g_id (r_reg r)).
-    destruct (existsb (beq (inst_key (r_node r) (g_id (r_reg r)))) keys); [|reflexivity].
+    destruct (existsb (key_eqb (inst_key (r_node r) (g_id (r_reg r)))) keys); [|reflexivity].
     rewrite entry_cmds_build. reflexivity.
   Qed.
 
@@ -162,7 +162,7 @@ Section Compose.
       destruct (beq name []) eqn:En; cbn [orb] in Hr; [destruct Hr|].
       destruct keys as [|k0 keys]; [destruct Hr|].
       apply filter_In in Hr as [Hr Hk]. apply filter_In in Hr as [Hr Hn]. apply beq_eq in Hn.
-      apply existsb_exists in Hk as [k [Hk Hb]]. apply beq_eq in Hb. subst k.
+      apply existsb_exists in Hk as [k [Hk Hb]]. apply key_eqb_eq in Hb. subst k.
       split; [exact Hr|]. split; [rewrite Hn; now apply beq_neq|].
       unfold group in Hm. destruct (group_sound _ _ _ _ _ Hm Hk) as [[ks0 [[] _]]|[svc [Hs [Hsn Hkey]]]].
       exists svc. split; [exact Hs|]. split; congruence.
@@ -172,7 +172,7 @@ Section Compose.
       rewrite Hn. destruct (beq (g_name (r_reg r)) []) eqn:En; [apply beq_eq in En; contradiction|]. cbn [orb].
       destruct ks as [|k0 ks]; [destruct Hkin|].
       apply filter_In. split; [apply filter_In; split; [exact Hr | apply beq_refl]|].
-      apply existsb_exists. exists (inst_key (c_node svc) (c_sid svc)). split; [exact Hkin|]. rewrite Hk. apply beq_refl.
+      apply existsb_exists. exists (inst_key (c_node svc) (c_sid svc)). split; [exact Hkin|]. rewrite Hk. apply key_eqb_refl.
   Qed.
   (* an intent stems from a tag that, trimmed, carries the prefix *)
   Lemma intent_tagged g i : In i (intents env prefix g) ->
@@ -189,7 +189,6 @@ Section Compose.
     Variable checks : list hcheck.
     Variable rcat : list rentry.
     Hypothesis Hcons : consistent checks rcat.
-    Hypothesis Hinj : keys_injective checks rcat.
 
     Let passing := watch_passing prefix status strict checks.
 
@@ -209,7 +208,7 @@ Section Compose.
         assert (In svc checks) as Hc.
         { unfold passing, watch_passing in Hs. apply passing_iff_healthy in Hs as [Hs _].
           unfold checks_with_tag_prefix in Hs. now apply filter_In in Hs. }
-        destruct (Hinj svc r Hc Hr Hk) as [En Es].
+        destruct (inst_key_injective _ _ _ _ Hk) as [En Es].
         assert (forall c, In c checks -> own (c_node svc) (c_sid svc) c -> tagged prefix c = true) as Hown
           by (rewrite En, Es; exact (own_tagged r i Hr Hi)).
         apply (watch_passing_iff prefix checks status strict svc Hown) in Hs as [_ [Hsvc Hh]].
@@ -329,7 +328,6 @@ Section Compose.
     Variable checks : list hcheck.
     Variable rcat : list rentry.
     Hypothesis Hcons : consistent checks rcat.
-    Hypothesis Hinj : keys_injective checks rcat.
     (* the healthy entries are within what the command language can express (C14's domain) *)
     Hypothesis Hexpr : forall r, In r rcat -> inst_healthy status strict checks r ->
                                  expressible isp pw canon gl env prefix (r_reg r) = true.
@@ -350,10 +348,10 @@ Section Compose.
       split; [reflexivity|].
       assert (forall i, In i is0 <-> healthy_adv i) as Hchar.
       { intros i. unfold is0. rewrite in_flat_map. split.
-        - intros [r [Hsel Hi]]. apply (selected_healthy status strict checks rcat Hcons Hinj r i Hi) in Hsel
+        - intros [r [Hsel Hi]]. apply (selected_healthy status strict checks rcat Hcons r i Hi) in Hsel
             as [Hr [_ Hh]]. exists r. split; [exact Hr | split; [exact Hh | exact Hi]].
         - intros [r [Hr [Hh Hi]]]. exists r. split; [|exact Hi].
-          apply (selected_healthy status strict checks rcat Hcons Hinj r i Hi). split; [exact Hr|]. split; [|exact Hh].
+          apply (selected_healthy status strict checks rcat Hcons r i Hi). split; [exact Hr|]. split; [|exact Hh].
           pose proof (Hexpr r Hr Hh) as He. unfold expressible in He. rewrite forallb_forall in He.
           destruct (expr_inv isp pw canon gl i (He i Hi)) as (Hs & _).
           destruct (intent_svc_tags _ _ Hi) as [Hn _]. rewrite Hn in Hs. intros E0. rewrite E0 in Hs. discriminate. }
@@ -507,7 +505,7 @@ Definition ex_checks : list hcheck :=
    mkCheck (bs "n1") (bs "serfHealth") [] [] (bs "passing") []].
 
 Example registry_table_nonvacuous :
-  consistent ex_checks ex_rcat /\ keys_injective ex_checks ex_rcat
+  consistent ex_checks ex_rcat
   /\ (forall r, In r ex_rcat -> expressible all_print pweight_dec idcanon anyglob env_dc pfx (r_reg r) = true)
   /\ inst_healthy [bs "passing"] false ex_checks (mkREntry (bs "n1") (ex_reg "s1" "10.0.0.1"))
   /\ ~ inst_healthy [bs "passing"] false ex_checks (mkREntry (bs "n2") (ex_reg "s2" "10.0.0.2"))
@@ -516,11 +514,9 @@ Example registry_table_nonvacuous :
        /\ map (fun x => (fst (fst x), snd (fst x), t_url (snd x))) (flat t)
           = [(bs "foo.com", bs "/good", bs "http://10.0.0.1:80/"); ([], bs "/two", bs "http://10.0.0.1:80/")].
 Proof.
-  split; [|split; [|split; [|split; [|split]]]].
+  split; [|split; [|split; [|split]]].
   - intros c r Hc Hr Hn Hs.
     repeat (destruct Hc as [<-|Hc]; [repeat (destruct Hr as [<-|Hr]; [try reflexivity; try (vm_compute in Hs; discriminate); try (vm_compute in Hn; discriminate)|]); try destruct Hr|]); destruct Hc.
-  - intros c r Hc Hr Hk.
-    repeat (destruct Hc as [<-|Hc]; [repeat (destruct Hr as [<-|Hr]; [try (split; reflexivity); try (vm_compute in Hk; discriminate)|]); try destruct Hr|]); destruct Hc.
   - intros r [<-|[<-|[]]]; vm_compute; reflexivity.
   - split; [eexists; split; [left; reflexivity|]; repeat split; vm_compute; reflexivity|].
     apply healthy_b_spec. vm_compute. reflexivity.
